@@ -798,6 +798,7 @@ macro_rules! ct {
             $crate::ct_dec!($t);
             fn from_enc_key(k: &[u8], by_ref: bool) -> Option<Self> {
                 let e = $crate::cat::k_new_slice::<$enc>(k).ok()?;
+                $crate::zero::scrub();
                 Some(if by_ref { <$t>::from(&e) } else { <$t>::from(e) })
             }
         }
@@ -809,6 +810,7 @@ macro_rules! ct {
             $crate::ct_dec!($t);
             fn from_enc_key(k: &[u8], by_ref: bool) -> Option<Self> {
                 let e = $crate::cat::k_new_slice::<$enc>(k).ok()?;
+                $crate::zero::scrub();
                 Some(if by_ref { <$t>::from(&e) } else { <$t>::from(e) })
             }
         }
